@@ -32,6 +32,7 @@
      this form;
    - glob syntax of path patterns. *)
 From Coq Require Import String Ascii.
+From Coq Require Import Permutation.
 From ToughV Require Import Model.Base Model.Json Model.CJson Model.Keys Model.TName.
 
 Fixpoint bs (s : string) : bytes :=
@@ -142,7 +143,8 @@ Definition k_php : bytes := bs "path_hash_prefixes".
 Definition occurrences (k : bytes) (m : members) : list jv :=
   map snd (filter (fun kv => bytes_eqb k (fst kv)) m).
 
-(* one known member: [pr] reads its value *)
+(* one known member: [pr] reads its value. Target::custom (FDefEmpty) is a map: it is empty, and
+   then skipped on output, exactly when the member is written as {} *)
 Definition field_out (pr : jv -> option jv) (kind : fkind) (name : bytes) (m : members)
   : option members :=
   match occurrences name m with
@@ -153,7 +155,7 @@ Definition field_out (pr : jv -> option jv) (kind : fkind) (name : bytes) (m : m
       | _, _ =>
           match pr v with
           | None => None
-          | Some v' => match kind, v' with
+          | Some v' => match kind, v with
                        | FDefEmpty, JObj [] => Some []
                        | _, _ => Some [(name, v')]
                        end
@@ -359,16 +361,17 @@ Definition offer (sch : schema) (keyid sigtext signed_bytes : bytes) (envelope :
    tag is the type's, optional members are not null, custom is not empty *)
 Definition has_key (k : bytes) (m : members) : bool := existsb (fun kv => bytes_eqb k (fst kv)) m.
 
-Definition field_covered (wc : jv -> bool) (pr : jv -> option jv) (kind : fkind) (name : bytes)
-           (m : members) : bool :=
+Definition kind_ok (kind : fkind) (v : jv) : bool :=
+  match kind, v with
+  | FOpt, JNull => false
+  | FDefEmpty, JObj [] => false
+  | _, _ => true
+  end.
+
+Definition field_covered (wc : jv -> bool) (kind : fkind) (name : bytes) (m : members) : bool :=
   match find_assoc name m with
   | None => match kind with FReq => false | _ => true end
-  | Some v =>
-      wc v && match kind with
-              | FReq => true
-              | FOpt => match v with JNull => false | _ => true end
-              | FDefEmpty => match pr v with Some (JObj []) => false | _ => true end
-              end
+  | Some v => wc v && kind_ok kind v
   end.
 
 Definition no_tag (tag : option bytes) : bool := match tag with None => true | Some _ => false end.
@@ -411,7 +414,7 @@ Fixpoint well_covered (s : schema) (j : jv) {struct s} : bool :=
           && (fix go (fs : list (bytes * (fkind * schema))) : bool :=
                 match fs with
                 | [] => true
-                | f :: t => field_covered (well_covered (snd (snd f))) (project (snd (snd f))) (fst (snd f)) (fst f) m && go t
+                | f :: t => field_covered (well_covered (snd (snd f))) (fst (snd f)) (fst f) m && go t
                 end) fields
           && rest_covered tag r (map fst fields) m
       | _ => false
@@ -434,3 +437,14 @@ Fixpoint lossy_levels (s : schema) : list (list bytes) :=
             end) fields
   | _ => []
   end.
+
+(* ---------------------------------------------------------------------------------------- *)
+(* member re-ordering, at any depth: members of an object (distinct names) may be permuted, and
+   their values re-ordered in turn; array elements keep their places *)
+Inductive reorder : jv -> jv -> Prop :=
+| ro_refl v : reorder v v
+| ro_arr l1 l2 : Forall2 reorder l1 l2 -> reorder (JArr l1) (JArr l2)
+| ro_obj m1 m2 m3 :
+    Forall2 (fun a b => fst a = fst b /\ reorder (snd a) (snd b)) m1 m2 ->
+    NoDup (map fst m1) -> Permutation m2 m3 -> reorder (JObj m1) (JObj m3).
+
